@@ -132,6 +132,10 @@ def run(tier):
     for fam_ in ("7", "5"):
         for src in progmod.deep_sources(check, fam_, core.seed(), 60 if tier == "quick" else 600)[:40]:
             add(src.encode("latin-1"), "deep-nesting")
+    # (d3) token-level edits of generated programs
+    for fam_ in ("7", "5"):
+        for b in progmod.token_mutations(check, fam_, core.seed(), 400 if tier == "quick" else 4000):
+            add(b, "token-edit")
     # (e) byte sweep
     nsweep = 0
     for b, origin in sweep_inputs(tier):
